@@ -3,6 +3,7 @@ tree) with a scripted execution engine and record a canonical trace."""
 import contextlib
 import io
 import os
+import re
 import sys
 from fractions import Fraction
 
@@ -106,18 +107,53 @@ def site_map(process):
     return m
 
 
+LOG_RE = re.compile(r"^(Task|Service) (.*) with UUID '(.*)' (started|finished)\.$")
+
+
 class RecObserver(Observer):
-    def __init__(self, tag, sink):
+    """records LOG_EVENT entries (parsed) and counts PETRI_NET notices"""
+
+    def __init__(self, tag, run):
         self.tag = tag
-        self.sink = sink
+        self.run = run
 
     def update(self, notification_type, data):
+        run = self.run
         if notification_type == NotificationType.LOG_EVENT:
-            self.sink.append(("obs", self.tag, "log", data[0], bool(data[2])))
+            m = LOG_RE.match(data[0])
+            if not m:
+                run.entries.append(("obs_raw", self.tag, data[0]))
+                return
+            ent, name, uuid, what = m.groups()
+            kind = ("T" if ent == "Task" else "S") + ("S" if what == "started" else "F")
+            run.entries.append(("obs", self.tag, kind, name,
+                                run.cid("t" if ent == "Task" else "s", uuid), bool(data[2])))
         elif notification_type == NotificationType.PETRI_NET:
-            self.sink.append(("obs", self.tag, "net", data))
+            run.net_notices.append((self.tag, data))
         else:
-            self.sink.append(("obs", self.tag, "other", str(notification_type)))
+            run.entries.append(("obs_raw", self.tag, str(notification_type)))
+
+
+class Listener:
+    """a registered callback object; bound methods of one Listener compare equal, so
+    registering the same listener twice exercises the 'already registered' path with an
+    equal-but-not-identical callable"""
+
+    def __init__(self, lid, run):
+        self.lid = lid
+        self.run = run
+
+    def on_ts(self, t):
+        self.run.on_ts(self.lid, t)
+
+    def on_tf(self, t):
+        self.run.on_tf(self.lid, t)
+
+    def on_ss(self, a):
+        self.run.on_ss(self.lid, a)
+
+    def on_sf(self, a):
+        self.run.on_sf(self.lid, a)
 
 
 class ImplRun:
@@ -143,6 +179,9 @@ class ImplRun:
         self.nss = 0
         self.stdout = ""
         self.reentrant_results = []
+        self.net_notices = []
+        self.listeners = {}
+        self.observers = {}
         buf = io.StringIO()
         with contextlib.redirect_stdout(buf):
             self.s = Scheduler(text, test_ids, draw, scheduler_uuid)
@@ -152,10 +191,8 @@ class ImplRun:
             return
         self.sites = site_map(self.s.process)
         s = self.s
-        s.register_callback_task_started(self.on_ts)
-        s.register_callback_task_finished(self.on_tf)
-        s.register_callback_service_started(self.on_ss)
-        s.register_callback_service_finished(self.on_sf)
+        for kind in ("TS", "TF", "SS", "SF"):
+            self.register(kind, 0)
         s.register_variable_access_function(self.var)
 
     # -- identifiers -----------------------------------------------------
@@ -177,48 +214,72 @@ class ImplRun:
         return tab[uuid]
 
     # -- callbacks -------------------------------------------------------
-    def _task_entry(self, kind, t):
+    def register(self, kind, lid):
+        lst = self.listeners.setdefault(lid, Listener(lid, self))
+        s = self.s
+        if kind == "TS":
+            return s.register_callback_task_started(lst.on_ts)
+        if kind == "TF":
+            return s.register_callback_task_finished(lst.on_tf)
+        if kind == "SS":
+            return s.register_callback_service_started(lst.on_ss)
+        return s.register_callback_service_finished(lst.on_sf)
+
+    def _task_entry(self, kind, lid, t):
         ctx = t.task_context
         site = self.sites.get(id(t.task_call), ("productionTask", ())) if t.task_call else ("productionTask", ())
-        return ("notif", kind, t.task.name, site, self.cid("t", t.uuid),
+        return ("notif", lid, kind, t.task.name, site, self.cid("t", t.uuid),
                 None if ctx is None else self.cid("t", ctx.uuid),
                 canon_params(t.input_parameters), bool(self.s.running))
 
-    def _svc_entry(self, kind, a):
+    def _svc_entry(self, kind, lid, a):
         site = self.sites.get(id(a.service), ("?", ()))
-        return ("notif", kind, a.service.name, site, self.cid("s", a.uuid),
+        return ("notif", lid, kind, a.service.name, site, self.cid("s", a.uuid),
                 self.cid("t", a.task_context.uuid), canon_params(a.input_parameters),
                 bool(self.s.running))
 
     def _hostile(self, api):
-        if self.mutate:
-            lst = api.input_parameters
-            for i, p in enumerate(lst):
-                if isinstance(p, list):
-                    p.append("mutated")
-                elif isinstance(p, Struct):
-                    p.attributes["mutated"] = 1
-                    p.name = "Mutated"
+        """hostile EE: damage the list it was handed (after recording it)"""
+        if not self.mutate:
+            return
+        lst = api.input_parameters
+        how = self.mutate if isinstance(self.mutate, str) else "append"
+        for p in lst:
+            if isinstance(p, list):
+                p.append("mutated")
+            elif isinstance(p, Struct):
+                p.attributes["mutated"] = 1
+                p.name = "Mutated"
+        if how == "clear":
+            lst.clear()
+        elif how == "append":
             lst.append("mutated")
+        elif how == "replace":
+            for i in range(len(lst)):
+                lst[i] = "mutated"
 
-    def on_ts(self, t):
-        self.entries.append(self._task_entry("TS", t))
-        self._hostile(t)
+    def on_ts(self, lid, t):
+        self.entries.append(self._task_entry("TS", lid, t))
+        if lid == 0:
+            self._hostile(t)
 
-    def on_tf(self, t):
-        self.entries.append(self._task_entry("TF", t))
+    def on_tf(self, lid, t):
+        self.entries.append(self._task_entry("TF", lid, t))
 
-    def on_ss(self, a):
-        self.entries.append(self._svc_entry("SS", a))
+    def on_ss(self, lid, a):
+        self.entries.append(self._svc_entry("SS", lid, a))
+        if lid != 0:
+            return
         self._hostile(a)
         k = self.nss
         self.nss += 1
         if k < len(self.imm) and self.imm[k]:
-            r = self.s.fire_event(Event("service_finished", {"service_uuid": a.uuid}))
+            with contextlib.redirect_stdout(io.StringIO()):
+                r = self.s.fire_event(Event("service_finished", {"service_uuid": a.uuid}))
             self.reentrant_results.append(r)
 
-    def on_sf(self, a):
-        self.entries.append(self._svc_entry("SF", a))
+    def on_sf(self, lid, a):
+        self.entries.append(self._svc_entry("SF", lid, a))
 
     def var(self, name, ctx):
         self.entries.append(("query", name, self.cid("t", ctx.uuid)))
@@ -244,14 +305,31 @@ class ImplRun:
                  and list(marking[g.task_finished_uuid]) == [1])
         rec = {"ret": bool(ret), "log": self.entries, "running": bool(s.running),
                "awaited": aw, "awaited_other": other, "final": final,
-               "tokens": sum(len(marking[p]) for p in marking)}
+               "tokens": sum(len(marking[p]) for p in marking),
+               "net_notices": self.net_notices}
         self.entries = []
+        self.net_notices = []
         return rec
 
     def call(self, op):
-        """op: ('start',) | ('finish', canonical service id) | ('junk', kind)"""
+        """op: ('start',) | ('finish', canonical service id) | ('junk', kind)
+        | ('register', kind, lid) | ('attach', o) | ('detach', o)"""
+        with contextlib.redirect_stdout(io.StringIO()):
+            return self._call(op)
+
+    def _call(self, op):
         if op[0] == "start":
             r = self.s.start()
+        elif op[0] == "register":
+            r = self.register(op[1], op[2])
+        elif op[0] == "attach":
+            ob = self.observers.setdefault(op[1], RecObserver(op[1], self))
+            self.s.attach(ob)
+            r = True
+        elif op[0] == "detach":
+            ob = self.observers.setdefault(op[1], RecObserver(op[1], self))
+            self.s.detach(ob)
+            r = True
         elif op[0] == "finish":
             uuid = self.uuid_of_sid.get(op[1], "no-such-service-%d" % op[1])
             r = self.s.fire_event(Event("service_finished", {"service_uuid": uuid}))
